@@ -403,6 +403,43 @@ def wake_order():
     return reg < chk, done < wake
 
 
+def idx_program():
+    """FrameBox::next_pdu_idx as a program of atomic primitives on the shared PDU index counter
+    (model: coq/Pdu/IdxAlloc.v).  Every method call on self.pdu_idx in the body, in source order."""
+    rel = "src/pdu_loop/frame_element/frame_box.rs"
+    txt = strip_comments(open(os.path.join(REPO, rel)).read())
+    m = re.search(r"fn\s+next_pdu_idx\s*\(", txt)
+    if not m:
+        raise Refuse(f"fn next_pdu_idx not found in {rel}")
+    i = txt.index("{", m.start())
+    depth, j = 0, i
+    while True:
+        if txt[j] == "{":
+            depth += 1
+        elif txt[j] == "}":
+            depth -= 1
+            if depth == 0:
+                break
+        j += 1
+    body = txt[i:j]
+    if re.search(r"\b(loop|while|for|if|match)\b", body):
+        raise Refuse(f"next_pdu_idx has control flow the index-allocation model does not cover: {body.strip()[:120]}")
+    prog = []
+    for mm in re.finditer(r"pdu_idx\s*\.\s*(\w+)\s*\(([^;]*?)\)\s*[;\n}]", body + "\n"):
+        op, args = mm.group(1), mm.group(2)
+        if op == "fetch_add" and re.match(r"\s*1\s*,", args):
+            prog.append("PFetchAdd")
+        elif op == "load":
+            prog.append("PLoad")
+        elif op == "store":
+            prog.append("PStore")
+        else:
+            raise Refuse(f"next_pdu_idx uses pdu_idx.{op}({args.strip()[:40]}), which the index-allocation model does not cover")
+    if not prog:
+        raise Refuse("next_pdu_idx does not touch the shared PDU index counter")
+    return prog
+
+
 def main():
     try:
         structs, enums = collect()
@@ -465,6 +502,18 @@ def main():
     rl.append("Definition src_registers : list (string * N) :=\n  [%s]." % ";\n   ".join('("%s"%%string, %d)' % r for r in regs))
     changed5 = write_if_changed(os.path.join(OUT, "SrcRegisters.v"), "\n".join(rl) + "\n")
     changed = changed or changed5
+    try:
+        prog = idx_program()
+    except Refuse as e:
+        print(f"src2coq: REFUSED: {e}")
+        sys.exit(2)
+    il = ["(* GENERATED by tools/src2coq.py from /repo's working tree -- do not edit *)",
+          "From EC Require Import Base.Prelude Pdu.IdxAlloc.",
+          "(* FrameBox::next_pdu_idx (src/pdu_loop/frame_element/frame_box.rs): its accesses to the shared",
+          "   PDU index counter, in program order *)",
+          "Definition next_pdu_idx_program : list prim := [%s]." % "; ".join(prog)]
+    changed6 = write_if_changed(os.path.join(OUT, "IdxProgram.v"), "\n".join(il) + "\n")
+    changed = changed or changed6
     summary = {"structs": len(structs), "enums": len(enums), "wkc_optout_sites": len(ws),
                "implicit_enums": [e["name"] for e in enums if any(v["disc"] is None and not v["catch"] for v in e["variants"])],
                "consts": len(cs), "changed": bool(changed or changed2)}
